@@ -172,6 +172,191 @@ Proof.
 Qed.
 End Order.
 
+(** generic facts on strongly sorted lists *)
+Lemma ss_map {A B} (R : A -> A -> Prop) (R' : B -> B -> Prop) (g : A -> B) (l : list A) :
+  (forall x y, In x l -> In y l -> R x y -> R' (g x) (g y)) -> StronglySorted R l -> StronglySorted R' (map g l).
+Proof.
+  intros H S. induction S as [|a l S IH F]; cbn [map]; constructor.
+  - apply IH. intros x y Hx Hy. apply H; now right.
+  - apply Forall_forall. intros b Hb. apply in_map_iff in Hb as (x & <- & Hx). apply H; [now left | now right |].
+    rewrite Forall_forall in F. now apply F.
+Qed.
+Lemma ss_app {A} (R : A -> A -> Prop) (l1 l2 : list A) :
+  StronglySorted R l1 -> StronglySorted R l2 -> (forall x y, In x l1 -> In y l2 -> R x y) -> StronglySorted R (l1 ++ l2).
+Proof.
+  intros S1 S2 H. induction S1 as [|a l S IH F]; cbn [app]; [exact S2|]. constructor.
+  - apply IH. intros x y Hx Hy. apply H; [now right | exact Hy].
+  - apply Forall_app. split; [exact F|]. apply Forall_forall. intros y Hy. apply H; [now left | exact Hy].
+Qed.
+Lemma ss_hd {A} (R : A -> A -> Prop) (d : A) (l : list A) : (forall x, In x l -> R x x) -> StronglySorted R l ->
+  forall x, In x l -> R (hd d l) x.
+Proof.
+  intros Hr S x Hx. destruct S as [|a l S F]; [destruct Hx|]. cbn [hd]. destruct Hx as [<-|Hx]; [apply Hr; now left|].
+  rewrite Forall_forall in F. now apply F.
+Qed.
+Lemma ss_last {A} (R : A -> A -> Prop) (d : A) (l : list A) : (forall x, In x l -> R x x) -> StronglySorted R l ->
+  forall x, In x l -> R x (last l d).
+Proof.
+  intros Hr S. induction S as [|a l S IH F]; intros x Hx; [destruct Hx|].
+  destruct l as [|b l'].
+  - destruct Hx as [<-|[]]. cbn. apply Hr. now left.
+  - change (last (a :: b :: l') d) with (last (b :: l') d). destruct Hx as [<-|Hx].
+    + rewrite Forall_forall in F. apply F. clear. induction l' as [|c l'' IHl] in b |- *; [now left|].
+      change (last (b :: c :: l'') d) with (last (c :: l'') d). right. apply IHl.
+    + apply IH; [|exact Hx]. intros y Hy. apply Hr. now right.
+Qed.
+
+Lemma map_Some_inj {A} : forall (l1 l2 : list A), map Some l1 = map Some l2 -> l1 = l2.
+Proof. induction l1 as [|a l1 IH]; intros [|b l2] H; cbn in H; try discriminate; [reflexivity|]. injection H as -> H. f_equal. now apply IH. Qed.
+
+(** * B2. the repair pass of haplobin *)
+Local Open Scope Z_scope.
+(** the pass on fully written labels, values as Python integers *)
+Fixpoint spreadZ (k p : Z) (rem : nat) (l : list nat) : list Z :=
+  match l with
+  | [] => []
+  | x :: r => let v := Z.min (Z.max (Z.max (Z.of_nat x) p) (k - Z.of_nat rem)) (p + 1) in v :: spreadZ k v (rem - 1) r
+  end.
+(** consecutive values rise by 0 or 1, starting from [a] *)
+Fixpoint stair (a : Z) (r : list Z) : Prop := match r with [] => True | v :: r' => a <= v <= a + 1 /\ stair v r' end.
+(** the last value, [a] for the empty list *)
+Definition lastZ (a : Z) (r : list Z) : Z := fold_left (fun _ v => v) r a.
+
+Lemma spread_loop_some k : forall l p rem,
+  spread_loop k (Some p) rem (map Some l) = map (fun v => Some (Z.to_nat v)) (spreadZ k p rem l).
+Proof. induction l as [|x l IH]; intros p rem; [reflexivity|]. cbn [map spread_loop spreadZ option_map]. f_equal. apply IH. Qed.
+
+Lemma spread_loop_length k : forall l prev rem, length (spread_loop k prev rem l) = length l.
+Proof. induction l as [|x l IH]; intros; cbn [spread_loop length]; [reflexivity|]. now rewrite IH. Qed.
+
+(** if the pass returns only written labels, every label it read was written *)
+Lemma spread_loop_all_some k : forall l prev rem r, spread_loop k prev rem l = map Some r -> exists l', l = map Some l'.
+Proof.
+  induction l as [|x l IH]; intros prev rem r H; [exists []; reflexivity|].
+  destruct r as [|y r]; [discriminate|]. cbn [spread_loop map] in H. injection H as Hv Ht.
+  destruct (IH _ _ _ Ht) as (l' & ->).
+  destruct prev as [p|]; [|discriminate]. destruct x as [xv|]; [|discriminate]. exists (xv :: l'). reflexivity.
+Qed.
+
+Lemma spreadZ_length k : forall l p rem, length (spreadZ k p rem l) = length l.
+Proof. induction l as [|x l IH]; intros; cbn [spreadZ length]; [reflexivity|]. now rewrite IH. Qed.
+
+Lemma spreadZ_stair k : forall l p rem, stair p (spreadZ k p rem l).
+Proof. induction l as [|x l IH]; intros p rem; cbn [spreadZ stair]; [exact I|]. split; [lia | apply IH]. Qed.
+
+Lemma stair_ge : forall r a, stair a r -> Forall (fun v => a <= v) r.
+Proof.
+  induction r as [|v r IH]; intros a H; [constructor|]. destruct H as [H1 H2]. constructor; [lia|].
+  eapply Forall_impl; [|apply (IH v H2)]. cbn. intros; lia.
+Qed.
+Lemma stair_sorted : forall r a, stair a r -> StronglySorted Z.le r.
+Proof. induction r as [|v r IH]; intros a H; [constructor|]. destruct H as [_ H2]. constructor; [eapply IH; eauto | now apply stair_ge]. Qed.
+Lemma lastZ_cons a v r : lastZ a (v :: r) = lastZ v r.
+Proof. reflexivity. Qed.
+Lemma stair_last_ge : forall r a, stair a r -> a <= lastZ a r.
+Proof. induction r as [|v r IH]; intros a H; [cbn; lia|]. destruct H as [H1 H2]. rewrite lastZ_cons. specialize (IH v H2). lia. Qed.
+Lemma stair_last_le : forall r a, stair a r -> lastZ a r <= a + Z.of_nat (length r).
+Proof. induction r as [|v r IH]; intros a H; [cbn; lia|]. destruct H as [H1 H2]. rewrite lastZ_cons. specialize (IH v H2). cbn [length]. lia. Qed.
+Lemma stair_in_le_last : forall r a j, stair a r -> In j r -> j <= lastZ a r.
+Proof.
+  induction r as [|v r IH]; intros a j H Hj; [destruct Hj|]. destruct H as [H1 H2]. rewrite lastZ_cons.
+  destruct Hj as [<-|Hj]; [now apply stair_last_ge | now apply IH].
+Qed.
+(** a staircase passes through every value between its start and its end *)
+Lemma stair_surj : forall r a, stair a r -> forall j, a < j <= lastZ a r -> In j r.
+Proof.
+  induction r as [|v r IH]; intros a H j Hj; [cbn in Hj; lia|]. destruct H as [H1 H2]. rewrite lastZ_cons in Hj.
+  destruct (Z.eq_dec j v) as [->|NE]; [now left|]. right. apply (IH v H2). lia.
+Qed.
+
+Lemma spreadZ_upper k : forall l p rem, rem = length l -> p <= k - 1 -> Forall (fun x => Z.of_nat x <= k - 1) l ->
+  Forall (fun v => v <= k - 1) (spreadZ k p rem l).
+Proof.
+  induction l as [|x l IH]; intros p rem Hr Hp H; cbn [spreadZ]; [constructor|]. apply Forall_cons_iff in H as [Hx H].
+  cbn [length] in Hr. constructor; [lia|]. apply IH; [lia | lia | exact H].
+Qed.
+Lemma spreadZ_lower k l p rem : Forall (fun x => p + 1 <= Z.of_nat x) l -> Forall (fun v => p + 1 <= v) (spreadZ k p rem l).
+Proof.
+  destruct l as [|x l]; intros H; cbn [spreadZ]; [constructor|]. apply Forall_cons_iff in H as [Hx _].
+  constructor; [lia|]. eapply Forall_impl; [|apply stair_ge, spreadZ_stair]. cbn. intros; lia.
+Qed.
+(** enough markers for the blocks that remain: the pass ends on the last label *)
+Lemma spreadZ_last k : forall l p rem, rem = length l -> l <> [] -> k - Z.of_nat rem - 1 <= p ->
+  k - 1 <= lastZ p (spreadZ k p rem l).
+Proof.
+  induction l as [|x l IH]; intros p rem Hr Hne Hp; [congruence|]. cbn [spreadZ]. rewrite lastZ_cons. cbn [length] in Hr.
+  destruct l as [|y l'].
+  - subst rem. unfold lastZ. cbn [spreadZ fold_left length] in *. lia.
+  - apply IH; [subst rem; cbn [length]; lia | discriminate | subst rem; cbn [length] in *; lia].
+Qed.
+(** labels that already form a staircase up to the last label are left as they are *)
+Lemma spreadZ_id k : forall l p rem, rem = length l -> stair p (map Z.of_nat l) -> k - 1 <= lastZ p (map Z.of_nat l) ->
+  (forall x, In x l -> Z.of_nat x <= k - 1) -> spreadZ k p rem l = map Z.of_nat l.
+Proof.
+  induction l as [|x l IH]; intros p rem Hr Hs Hl Hu; [reflexivity|]. cbn [map] in *. destruct Hs as [H1 H2]. rewrite lastZ_cons in Hl.
+  pose proof (stair_last_le _ _ H2) as Hle. rewrite map_length in Hle. cbn [length] in Hr. cbn [spreadZ].
+  replace (Z.min (Z.max (Z.max (Z.of_nat x) p) (k - Z.of_nat rem)) (p + 1)) with (Z.of_nat x) by lia.
+  f_equal. apply IH; [lia | exact H2 | exact Hl | intros y Hy; apply Hu; now right].
+Qed.
+
+(** sorted labels in [a+1, K) that use every value of that range form a staircase from a *)
+Lemma full_sorted_stair (K : Z) : forall (l : list nat) (a : Z), -1 <= a -> StronglySorted Nat.le l ->
+  Forall (fun x => a <= Z.of_nat x < K) l -> (forall j : nat, a < Z.of_nat j < K -> In j l) -> stair a (map Z.of_nat l).
+Proof.
+  induction l as [|x l IH]; intros a Ha S F Hall; [exact I|]. cbn [map stair].
+  inversion S as [|? ? S' Fx]; subst. apply Forall_cons_iff in F as [Hx F].
+  assert (Hx1 : Z.of_nat x <= a + 1).
+  { destruct (Z_le_gt_dec (Z.of_nat x) (a + 1)) as [|G]; [assumption|]. exfalso.
+    destruct (Hall (Z.to_nat (a + 1))) as [E|Hin]; [lia | lia |].
+    rewrite Forall_forall in Fx. specialize (Fx _ Hin). unfold Nat.le in Fx. lia. }
+  split; [lia|]. apply IH; [lia | exact S' | |].
+  - rewrite Forall_forall in *. intros y Hy. specialize (F y Hy). specialize (Fx y Hy). unfold Nat.le in Fx. lia.
+  - intros j Hj. destruct (Hall j) as [E|Hin]; [lia | lia | exact Hin].
+Qed.
+
+Local Open Scope nat_scope.
+(** the pass on the labels of one chromosome: block labels k0 .. k0+n-1, every marker labelled in that range *)
+Lemma spread_spec (k0 n : nat) (l : list nat) : 1 <= n -> Forall (fun j => k0 <= j < k0 + n) l ->
+  exists r, spread_loop (Z.of_nat (k0 + n)) (Some (Z.of_nat (k0 + n) - Z.of_nat n - 1)%Z) (length l) (map Some l) = map Some r
+    /\ length r = length l /\ Forall (fun j => k0 <= j < k0 + n) r /\ StronglySorted Nat.le r
+    /\ (n <= length l -> forall j, k0 <= j < k0 + n -> In j r).
+Proof.
+  intros Hn HF. set (K := Z.of_nat (k0 + n)). set (p := (K - Z.of_nat n - 1)%Z).
+  set (rz := spreadZ K p (length l) l). exists (map Z.to_nat rz).
+  assert (Hst : stair p rz) by apply spreadZ_stair.
+  assert (Hup : Forall (fun v => (v <= K - 1)%Z) rz).
+  { apply spreadZ_upper; [reflexivity | unfold p, K; lia|]. eapply Forall_impl; [|exact HF]. cbn. unfold K. intros; lia. }
+  assert (Hlo : Forall (fun v => (p + 1 <= v)%Z) rz).
+  { apply spreadZ_lower. eapply Forall_impl; [|exact HF]. cbn. unfold p, K. intros; lia. }
+  split; [rewrite spread_loop_some, map_map; reflexivity|]. split; [unfold rz; now rewrite map_length, spreadZ_length|].
+  split; [|split].
+  - apply Forall_forall. intros j Hj. apply in_map_iff in Hj as (v & <- & Hv). rewrite Forall_forall in Hup, Hlo.
+    specialize (Hup v Hv). specialize (Hlo v Hv). unfold p, K in *. lia.
+  - apply (ss_map Z.le Nat.le Z.to_nat rz); [|eapply stair_sorted; eauto]. intros x y _ _ Hxy. unfold Nat.le. lia.
+  - intros Hlen j Hj. assert (Hne : l <> []) by (destruct l; [cbn in Hlen; lia | discriminate]).
+    pose proof (spreadZ_last K l p (length l) eq_refl Hne ltac:(unfold p; lia)) as Hlast. fold rz in Hlast.
+    pose proof (stair_surj rz p Hst (Z.of_nat j) ltac:(unfold p, K in *; lia)) as Hin.
+    apply (in_map Z.to_nat) in Hin. now rewrite Nat2Z.id in Hin.
+Qed.
+
+(** ... and it is the identity on sorted labels that already use every label of the chromosome *)
+Lemma spread_id (k0 n : nat) (l : list nat) : 1 <= n -> Forall (fun j => k0 <= j < k0 + n) l -> StronglySorted Nat.le l ->
+  (forall j, k0 <= j < k0 + n -> In j l) ->
+  spread_loop (Z.of_nat (k0 + n)) (Some (Z.of_nat (k0 + n) - Z.of_nat n - 1)%Z) (length l) (map Some l) = map Some l.
+Proof.
+  intros Hn HF S Hall. set (K := Z.of_nat (k0 + n)). set (p := (K - Z.of_nat n - 1)%Z).
+  assert (Hst : stair p (map Z.of_nat l)).
+  { apply (full_sorted_stair K); [unfold p, K; lia | exact S | |].
+    - eapply Forall_impl; [|exact HF]. cbn. unfold p, K. intros; lia.
+    - intros j Hj. apply Hall. unfold p, K in Hj. lia. }
+  rewrite spread_loop_some, (spreadZ_id K l p (length l) eq_refl Hst).
+  - rewrite map_map. apply map_ext. intros x. now rewrite Nat2Z.id.
+  - apply (stair_in_le_last _ _ _ Hst). replace (K - 1)%Z with (Z.of_nat (k0 + n - 1)) by (unfold K; lia).
+    apply in_map. apply Hall. lia.
+  - intros x Hx. rewrite Forall_forall in HF. specialize (HF x Hx). unfold K. lia.
+Qed.
+
+Local Open Scope nat_scope.
 (** * C. the whole genome: chromosomes tile the marker array *)
 Lemma slice_app_mid {A} (pre c X : list A) : slice (length pre) (length pre + length c) (pre ++ c ++ X) = c.
 Proof.
@@ -217,17 +402,22 @@ Section Genome.
 Context {T : Type} (O : ops T).
 Notation z := (o_ofn O 0).
 
-(** labels of one chromosome [c] with [n] blocks, the first of which is numbered [k] *)
+(** equal-width bin labels of one chromosome [c] with [n] blocks, the first of which is numbered [k] *)
 Definition chrom_labels (k n : nat) (c : list T) : list (option nat) :=
   map (fun x => bin_label O (linspace O (hd z c) (last c z) n) x k None) c.
+(** ... followed by the repair pass: the labels haplobin returns for the chromosome *)
+Definition chrom_fix (k n : nat) (c : list T) : list (option nat) :=
+  spread_loop (Z.of_nat (k + n)) (Some (Z.of_nat (k + n) - Z.of_nat n - 1)%Z) (length c) (chrom_labels k n c).
 Fixpoint labels_from (k : nat) (nblk : list nat) (chrs : list (list T)) : list (list (option nat)) :=
   match nblk, chrs with
-  | n :: nb, c :: cs => chrom_labels k n c :: labels_from (k + n) nb cs
+  | n :: nb, c :: cs => chrom_fix k n c :: labels_from (k + n) nb cs
   | _, _ => []
   end.
 
 Lemma chrom_labels_length k n c : length (chrom_labels k n c) = length c.
 Proof. unfold chrom_labels. apply map_length. Qed.
+Lemma chrom_fix_length k n c : length (chrom_fix k n c) = length c.
+Proof. unfold chrom_fix. now rewrite spread_loop_length, chrom_labels_length. Qed.
 
 Lemma haplobin_loop_tiled : forall (chrs : list (list T)) (nblk : list nat) (pre : list T) (done : list (option nat)) (k : nat),
   length nblk = length chrs -> Forall (fun c => c <> []) chrs -> length done = length pre ->
@@ -245,11 +435,12 @@ Proof.
     rewrite (slice_app_mid pre c (concat cs)).
     rewrite (slice_app_mid' done (repeat None (length c)) _ (length pre) (length pre + length c)) by (rewrite ?repeat_length; lia).
     rewrite map2_repeat_r. fold (chrom_labels k n c).
+    unfold spread. replace (length pre + length c - length pre) with (length c) by lia. fold (chrom_fix k n c).
     rewrite (write_app_mid' done (repeat None (length c)) _ _ (length pre) (length pre + length c)) by (rewrite ?repeat_length; lia).
     replace (pre ++ c ++ concat cs) with ((pre ++ c) ++ concat cs) by now rewrite app_assoc.
-    replace (done ++ chrom_labels k n c ++ repeat None (length (concat cs))) with ((done ++ chrom_labels k n c) ++ repeat None (length (concat cs))) by now rewrite app_assoc.
+    replace (done ++ chrom_fix k n c ++ repeat None (length (concat cs))) with ((done ++ chrom_fix k n c) ++ repeat None (length (concat cs))) by now rewrite app_assoc.
     replace (length pre + length c) with (length (pre ++ c)) by (rewrite app_length; lia).
-    rewrite IH; [now rewrite <- app_assoc | cbn in HL; lia | exact HN | rewrite !app_length, chrom_labels_length; lia].
+    rewrite IH; [now rewrite <- app_assoc | cbn in HL; lia | exact HN | rewrite !app_length, chrom_fix_length; lia].
 Qed.
 
 (** for chromosome groups that tile the marker array, haplobin is the concatenation of the per-chromosome labels *)
@@ -258,41 +449,54 @@ Lemma haplobin_tiled (chrs : list (list T)) (nblk : list nat) :
   haplobin O nblk (concat chrs) (starts_from 0 (map (@length T) chrs)) (stops_from 0 (map (@length T) chrs))
   = concat (labels_from 0 nblk chrs).
 Proof. intros HL HN. unfold haplobin. apply (haplobin_loop_tiled chrs nblk [] [] 0 HL HN eq_refl). Qed.
-End Genome.
 
-(** generic facts on strongly sorted lists *)
-Lemma ss_map {A B} (R : A -> A -> Prop) (R' : B -> B -> Prop) (g : A -> B) (l : list A) :
-  (forall x y, In x l -> In y l -> R x y -> R' (g x) (g y)) -> StronglySorted R l -> StronglySorted R' (map g l).
+(** ** the FORMER code of haplobin (before the repair pass was added), kept as a regression witness: the bare
+    equal-width bin labels *)
+Fixpoint old_haplobin_loop (gp : list T) (chroms : list (nat * (nat * nat))) (k : nat) (out : list (option nat))
+  : list (option nat) :=
+  match chroms with
+  | [] => out
+  | (nhap, (st, sp)) :: rest =>
+      let hb := linspace O (nth st gp z) (nth (sp - 1) gp z) nhap in
+      let lab := map2 (fun x cur => bin_label O hb x k cur) (slice st sp gp) (slice st sp out) in
+      old_haplobin_loop gp rest (k + nhap) (write st sp lab out)
+  end.
+Definition old_haplobin (nblk : list nat) (gp : list T) (stix spix : list nat) : list (option nat) :=
+  old_haplobin_loop gp (combine nblk (combine stix spix)) 0 (repeat None (length gp)).
+Fixpoint old_labels_from (k : nat) (nblk : list nat) (chrs : list (list T)) : list (list (option nat)) :=
+  match nblk, chrs with
+  | n :: nb, c :: cs => chrom_labels k n c :: old_labels_from (k + n) nb cs
+  | _, _ => []
+  end.
+
+Lemma old_haplobin_loop_tiled : forall (chrs : list (list T)) (nblk : list nat) (pre : list T) (done : list (option nat)) (k : nat),
+  length nblk = length chrs -> Forall (fun c => c <> []) chrs -> length done = length pre ->
+  old_haplobin_loop (pre ++ concat chrs)
+    (combine nblk (combine (starts_from (length pre) (map (@length T) chrs)) (stops_from (length pre) (map (@length T) chrs))))
+    k (done ++ repeat None (length (concat chrs)))
+  = done ++ concat (old_labels_from k nblk chrs).
 Proof.
-  intros H S. induction S as [|a l S IH F]; cbn [map]; constructor.
-  - apply IH. intros x y Hx Hy. apply H; now right.
-  - apply Forall_forall. intros b Hb. apply in_map_iff in Hb as (x & <- & Hx). apply H; [now left | now right |].
-    rewrite Forall_forall in F. now apply F.
+  induction chrs as [|c cs IH]; intros nblk pre done k HL HN HD.
+  - destruct nblk; [|discriminate]. cbn. reflexivity.
+  - destruct nblk as [|n nb]; [discriminate|]. apply Forall_cons_iff in HN as [Hc HN].
+    cbn [map starts_from stops_from combine old_haplobin_loop concat old_labels_from].
+    rewrite app_length, repeat_app.
+    rewrite (nth_app_hd pre c (concat cs) z Hc), (nth_app_last pre c (concat cs) z Hc).
+    rewrite (slice_app_mid pre c (concat cs)).
+    rewrite (slice_app_mid' done (repeat None (length c)) _ (length pre) (length pre + length c)) by (rewrite ?repeat_length; lia).
+    rewrite map2_repeat_r. fold (chrom_labels k n c).
+    rewrite (write_app_mid' done (repeat None (length c)) _ _ (length pre) (length pre + length c)) by (rewrite ?repeat_length; lia).
+    replace (pre ++ c ++ concat cs) with ((pre ++ c) ++ concat cs) by now rewrite app_assoc.
+    replace (done ++ chrom_labels k n c ++ repeat None (length (concat cs))) with ((done ++ chrom_labels k n c) ++ repeat None (length (concat cs))) by now rewrite app_assoc.
+    replace (length pre + length c) with (length (pre ++ c)) by (rewrite app_length; lia).
+    rewrite IH; [now rewrite <- app_assoc | cbn in HL; lia | exact HN | rewrite !app_length, chrom_labels_length; lia].
 Qed.
-Lemma ss_app {A} (R : A -> A -> Prop) (l1 l2 : list A) :
-  StronglySorted R l1 -> StronglySorted R l2 -> (forall x y, In x l1 -> In y l2 -> R x y) -> StronglySorted R (l1 ++ l2).
-Proof.
-  intros S1 S2 H. induction S1 as [|a l S IH F]; cbn [app]; [exact S2|]. constructor.
-  - apply IH. intros x y Hx Hy. apply H; [now right | exact Hy].
-  - apply Forall_app. split; [exact F|]. apply Forall_forall. intros y Hy. apply H; [now left | exact Hy].
-Qed.
-Lemma ss_hd {A} (R : A -> A -> Prop) (d : A) (l : list A) : (forall x, In x l -> R x x) -> StronglySorted R l ->
-  forall x, In x l -> R (hd d l) x.
-Proof.
-  intros Hr S x Hx. destruct S as [|a l S F]; [destruct Hx|]. cbn [hd]. destruct Hx as [<-|Hx]; [apply Hr; now left|].
-  rewrite Forall_forall in F. now apply F.
-Qed.
-Lemma ss_last {A} (R : A -> A -> Prop) (d : A) (l : list A) : (forall x, In x l -> R x x) -> StronglySorted R l ->
-  forall x, In x l -> R x (last l d).
-Proof.
-  intros Hr S. induction S as [|a l S IH F]; intros x Hx; [destruct Hx|].
-  destruct l as [|b l'].
-  - destruct Hx as [<-|[]]. cbn. apply Hr. now left.
-  - change (last (a :: b :: l') d) with (last (b :: l') d). destruct Hx as [<-|Hx].
-    + rewrite Forall_forall in F. apply F. clear. induction l' as [|c l'' IHl] in b |- *; [now left|].
-      change (last (b :: c :: l'') d) with (last (c :: l'') d). right. apply IHl.
-    + apply IH; [|exact Hx]. intros y Hy. apply Hr. now right.
-Qed.
+Lemma old_haplobin_tiled (chrs : list (list T)) (nblk : list nat) :
+  length nblk = length chrs -> Forall (fun c => c <> []) chrs ->
+  old_haplobin nblk (concat chrs) (starts_from 0 (map (@length T) chrs)) (stops_from 0 (map (@length T) chrs))
+  = concat (old_labels_from 0 nblk chrs).
+Proof. intros HL HN. unfold old_haplobin. apply (old_haplobin_loop_tiled chrs nblk [] [] 0 HL HN eq_refl). Qed.
+End Genome.
 
 Definition offset (nblk : list nat) (c : nat) : nat := list_sum (firstn c nblk).
 Fixpoint ranges (k : nat) (nblk : list nat) (labs : list (list nat)) : Prop :=
@@ -326,6 +530,89 @@ Qed.
 Lemma Forall2_len {A B} (R : A -> B -> Prop) l1 l2 : Forall2 R l1 l2 -> length l1 = length l2.
 Proof. induction 1; cbn; congruence. Qed.
 
+(** * C2. what the repair pass guarantees for ANY number type and ANY comparison: whenever every marker is labelled,
+      the labels of a chromosome form a staircase over the chromosome's label range *)
+Lemma concat_map_Some_split {A} : forall (L : list (list (option A))) (lab : list A), concat L = map Some lab ->
+  exists labs, L = map (map Some) labs /\ lab = concat labs.
+Proof.
+  induction L as [|l L IH]; intros lab H; cbn [concat] in H.
+  - destruct lab; [|discriminate]. exists []. split; reflexivity.
+  - symmetry in H. apply map_eq_app in H as (l1 & l2 & -> & E1 & E2). symmetry in E2. destruct (IH l2 E2) as (labs & -> & ->).
+    exists (l1 :: labs). cbn [map concat]. now rewrite E1.
+Qed.
+
+Section GenomeAny.
+Context {T : Type} (O : ops T).
+Notation z := (o_ofn O 0).
+
+Lemma linspace_length lo hi n : length (linspace O lo hi n) = S n.
+Proof. unfold linspace. rewrite app_length, map_length, seq_length. cbn. lia. Qed.
+Lemma linspace_last lo hi n d : last (linspace O lo hi n) d = hi.
+Proof. unfold linspace. apply last_last. Qed.
+
+(** a label written by the bins of chromosome (k, n) lies in k .. k+n-1 *)
+Lemma chrom_labels_range (k n : nat) (c : list T) (l : list nat) : chrom_labels O k n c = map Some l ->
+  Forall (fun j => k <= j < k + n) l.
+Proof.
+  unfold chrom_labels. revert l. generalize (linspace_length (hd z c) (last c z) n). generalize (linspace O (hd z c) (last c z) n). intros hb Lhb.
+  induction c as [|x c IH]; intros [|j l] H; cbn [map] in H; try discriminate; constructor.
+  - injection H as H _. destruct (bin_label_range O hb x k None) as [E|(j' & E & R)]; rewrite E in H; [discriminate|].
+    injection H as <-. rewrite Lhb in R. lia.
+  - apply IH. now injection H.
+Qed.
+
+Lemma chrom_fix_any (k n : nat) (c : list T) (r : list nat) : 1 <= n -> chrom_fix O k n c = map Some r ->
+  length r = length c /\ Forall (fun j => k <= j < k + n) r /\ StronglySorted Nat.le r
+  /\ (n <= length c -> forall j, k <= j < k + n -> In j r).
+Proof.
+  intros Hn H. unfold chrom_fix in H. destruct (spread_loop_all_some _ _ _ _ _ H) as (l & El).
+  pose proof (chrom_labels_range k n c l El) as Rl.
+  assert (Ll : length l = length c) by (apply (f_equal (@length (option nat))) in El; rewrite chrom_labels_length, map_length in El; congruence).
+  destruct (spread_spec k n l Hn Rl) as (r' & Er & Lr & Rr & Sr & Fr).
+  rewrite El, <- Ll, Er in H. apply map_Some_inj in H. subst r'. rewrite <- Ll. repeat split; assumption.
+Qed.
+
+Lemma labels_from_any : forall (chrs : list (list T)) (nblk : list nat) (k : nat) (labs : list (list nat)),
+  Forall (fun n => 1 <= n) nblk -> length nblk = length chrs -> labels_from O k nblk chrs = map (map Some) labs ->
+  Forall2 (fun c l => length l = length c) chrs labs /\ ranges k nblk labs /\ StronglySorted Nat.le (concat labs)
+  /\ (Forall2 (fun n c => n <= length c) nblk chrs -> forall j, k <= j < k + list_sum nblk -> In j (concat labs)).
+Proof.
+  induction chrs as [|c cs IH]; intros nblk k labs H1 HL E.
+  - destruct nblk; [|discriminate]. destruct labs; [|discriminate]. cbn. repeat split; try constructor. intros _ j Hj. lia.
+  - destruct nblk as [|n nb]; [discriminate|]. cbn [labels_from] in E. destruct labs as [|l ls]; [discriminate|]. cbn [map] in E.
+    injection E as El Els. apply Forall_cons_iff in H1 as [Hn H1].
+    destruct (chrom_fix_any k n c l Hn El) as (Ll & Rl & Sl & Fl).
+    destruct (IH nb (k + n) ls H1 ltac:(cbn in HL; lia) Els) as (Lls & Rls & Sls & Fls).
+    pose proof (ranges_lower _ _ _ Rls) as Lo.
+    split; [constructor; assumption|]. split; [split; assumption|]. split.
+    + cbn [concat]. apply ss_app; [assumption|assumption|]. intros x y Hx Hy.
+      rewrite Forall_forall in Rl. specialize (Rl x Hx). rewrite Forall_forall in Lo. specialize (Lo y Hy). cbn in Lo. unfold Nat.le. lia.
+    + intros Hlen j Hj. inversion Hlen as [|? ? ? ? Hnc Hlen']; subst. cbn [concat]. apply in_or_app.
+      change (list_sum (n :: nb)) with (n + list_sum nb) in Hj.
+      destruct (Nat.lt_ge_cases j (k + n)) as [Lt|Ge]; [left; apply (Fl Hnc); lia | right; apply (Fls Hlen'); lia].
+Qed.
+
+(** haplobin on a genome whose chromosome groups tile the markers, for any number type: IF every marker is labelled,
+    the labels are non-decreasing, those of chromosome c lie in its label range, and every requested label is used
+    when no chromosome has fewer markers than blocks *)
+Lemma haplobin_any_spec (chrs : list (list T)) (nblk : list nat) (lab : list nat) :
+  length nblk = length chrs -> Forall (fun c => c <> []) chrs -> Forall (fun n => 1 <= n) nblk ->
+  haplobin O nblk (concat chrs) (starts_from 0 (map (@length T) chrs)) (stops_from 0 (map (@length T) chrs)) = map Some lab ->
+  exists labs : list (list nat), lab = concat labs
+    /\ Forall2 (fun c l => length l = length c) chrs labs
+    /\ (forall c l, nth_error labs c = Some l -> Forall (fun j => offset nblk c <= j < offset nblk (S c)) l)
+    /\ StronglySorted Nat.le lab
+    /\ (Forall2 (fun n c => n <= length c) nblk chrs -> forall j, j < list_sum nblk -> In j lab).
+Proof.
+  intros HL Hne H1 H. rewrite haplobin_tiled in H by assumption.
+  destruct (concat_map_Some_split _ _ H) as (labs & E & ->).
+  destruct (labels_from_any chrs nblk 0 labs H1 HL E) as (L & R & S & Fu).
+  exists labs. split; [reflexivity|]. split; [exact L|]. split; [|split; [exact S|]].
+  - intros c l Hl. pose proof (ranges_nth _ _ _ _ _ R Hl) as F. eapply Forall_impl; [|exact F]. cbn. intros; lia.
+  - intros Hlen j Hj. apply (Fu Hlen). lia.
+Qed.
+End GenomeAny.
+
 Section GenomeOrder.
 Context {T : Type} (O : ops T) (ok : T -> Prop).
 Hypothesis leb_total : forall x y, ok x -> ok y -> o_leb O x y = true \/ o_leb O y x = true.
@@ -340,10 +627,6 @@ Definition chrom_ok (c : list T) : Prop := c <> [] /\ Forall ok c /\ StronglySor
 Definition bounds_ok (n : nat) (c : list T) : Prop :=
   Forall ok (linspace O (hd z c) (last c z) n) /\ o_leb O (hd z (linspace O (hd z c) (last c z) n)) (hd z c) = true.
 
-Lemma linspace_length lo hi n : length (linspace O lo hi n) = S n.
-Proof. unfold linspace. rewrite app_length, map_length, seq_length. cbn. lia. Qed.
-Lemma linspace_last lo hi n d : last (linspace O lo hi n) d = hi.
-Proof. unfold linspace. apply last_last. Qed.
 
 Lemma chrom_labels_spec (k n : nat) (c : list T) : 1 <= n -> chrom_ok c -> bounds_ok n c ->
   exists l : list nat, chrom_labels O k n c = map Some l /\ length l = length c
@@ -383,38 +666,48 @@ Proof.
     + rewrite Ey. exact Le.
 Qed.
 
-Lemma labels_from_spec : forall (chrs : list (list T)) (nblk : list nat) (k : nat),
-  Forall (fun n => 1 <= n) nblk -> Forall chrom_ok chrs -> Forall2 bounds_ok nblk chrs ->
-  exists labs : list (list nat), labels_from O k nblk chrs = map (map Some) labs
-    /\ Forall2 (fun c l => length l = length c) chrs labs /\ ranges k nblk labs /\ StronglySorted Nat.le (concat labs).
+(** under the ordering hypotheses every marker is labelled, so the repair pass returns written labels *)
+Lemma chrom_fix_some (k n : nat) (c : list T) : 1 <= n -> chrom_ok c -> bounds_ok n c ->
+  exists r : list nat, chrom_fix O k n c = map Some r.
 Proof.
-  induction chrs as [|c cs IH]; intros nblk k H1 Hc Hb.
-  - inversion Hb; subst. exists []. cbn. repeat split; constructor.
-  - inversion Hb as [|n c' nb cs' Hbc Hb']; subst. apply Forall_cons_iff in H1 as [Hn H1]. apply Forall_cons_iff in Hc as [Hc0 Hc].
-    destruct (chrom_labels_spec k n c Hn Hc0 Hbc) as (l & El & Ll & Rl & Sl).
-    destruct (IH nb (k + n) H1 Hc Hb') as (ls & Els & Lls & Rls & Sls).
-    exists (l :: ls). cbn [labels_from map concat ranges]. rewrite El, Els. repeat split; [constructor; assumption | assumption | assumption |].
-    apply ss_app; [assumption|assumption|]. intros x y Hx Hy.
-    rewrite Forall_forall in Rl. specialize (Rl x Hx). pose proof (ranges_lower _ _ _ Rls) as Lo. rewrite Forall_forall in Lo. specialize (Lo y Hy). cbn in Lo.
-    unfold Nat.le. lia.
+  intros Hn Hc Hb. destruct (chrom_labels_spec k n c Hn Hc Hb) as (l & El & Ll & Rl & _).
+  destruct (spread_spec k n l Hn Rl) as (r & Er & _). exists r. unfold chrom_fix. rewrite El.
+  rewrite <- Ll, <- Er. reflexivity.
 Qed.
 
-(** haplobin on a genome whose chromosome groups tile the markers *)
+Lemma labels_from_some : forall (chrs : list (list T)) (nblk : list nat) (k : nat),
+  Forall (fun n => 1 <= n) nblk -> Forall chrom_ok chrs -> Forall2 bounds_ok nblk chrs ->
+  exists labs : list (list nat), labels_from O k nblk chrs = map (map Some) labs.
+Proof.
+  induction chrs as [|c cs IH]; intros nblk k H1 Hc Hb.
+  - inversion Hb; subst. exists []. reflexivity.
+  - inversion Hb as [|n c' nb cs' Hbc Hb']; subst. apply Forall_cons_iff in H1 as [Hn H1]. apply Forall_cons_iff in Hc as [Hc0 Hc].
+    destruct (chrom_fix_some k n c Hn Hc0 Hbc) as (l & El). destruct (IH nb (k + n) H1 Hc Hb') as (ls & Els).
+    exists (l :: ls). cbn [labels_from map]. now rewrite El, Els.
+Qed.
+
+(** haplobin on a genome whose chromosome groups tile the markers: every marker is labelled exactly once, inside the
+    label range of its chromosome, labels non-decreasing; every requested label is used when no chromosome has fewer
+    markers than blocks *)
 Lemma haplobin_spec (chrs : list (list T)) (nblk : list nat) :
   Forall (fun n => 1 <= n) nblk -> Forall chrom_ok chrs -> Forall2 bounds_ok nblk chrs ->
   exists labs : list (list nat),
     haplobin O nblk (concat chrs) (starts_from 0 (map (@length T) chrs)) (stops_from 0 (map (@length T) chrs)) = map Some (concat labs)
     /\ Forall2 (fun c l => length l = length c) chrs labs
     /\ (forall c l, nth_error labs c = Some l -> Forall (fun j => offset nblk c <= j < offset nblk (S c)) l)
-    /\ StronglySorted Nat.le (concat labs).
+    /\ StronglySorted Nat.le (concat labs)
+    /\ (Forall2 (fun n c => n <= length c) nblk chrs -> forall j, j < list_sum nblk -> In j (concat labs)).
 Proof.
-  intros H1 Hc Hb. destruct (labels_from_spec chrs nblk 0 H1 Hc Hb) as (labs & E & L & R & S).
-  exists labs. split; [|split; [exact L|split; [|exact S]]].
+  intros H1 Hc Hb. destruct (labels_from_some chrs nblk 0 H1 Hc Hb) as (labs & E).
+  assert (HL : length nblk = length chrs) by now apply Forall2_len in Hb.
+  destruct (labels_from_any O chrs nblk 0 labs H1 HL E) as (L & R & S & Fu).
+  exists labs. split; [|split; [exact L|split; [|split; [exact S|]]]].
   - rewrite haplobin_tiled.
     + rewrite E. now rewrite concat_map.
-    + now apply Forall2_len in Hb.
+    + exact HL.
     + eapply Forall_impl; [|exact Hc]. intros c (H & _). exact H.
   - intros c l Hl. pose proof (ranges_nth _ _ _ _ _ R Hl) as F. eapply Forall_impl; [|exact F]. cbn. intros; lia.
+  - intros Hlen j Hj. apply (Fu Hlen). lia.
 Qed.
 End GenomeOrder.
 
@@ -760,7 +1053,7 @@ Proof.
   apply Qle_bool_iff. destruct (Qeq_bool _ 0); apply Qle_lteq; right; unfold Qdiv; ring.
 Qed.
 
-(** the rational linspace is non-decreasing as well (not needed by the theorems, recorded for completeness) *)
+(** the exact-rational instance: unconditional *)
 Lemma q_haplobin_spec (chrs : list (list Q)) (nblk : list nat) :
   length nblk = length chrs -> Forall (fun n => (1 <= n)%nat) nblk ->
   Forall (fun c => c <> [] /\ StronglySorted (fun x y => Qle_bool x y = true) c) chrs ->
@@ -768,7 +1061,8 @@ Lemma q_haplobin_spec (chrs : list (list Q)) (nblk : list nat) :
     haplobin qops nblk (concat chrs) (starts_from 0 (map (@length Q) chrs)) (stops_from 0 (map (@length Q) chrs)) = map Some (concat labs)
     /\ Forall2 (fun c l => length l = length c) chrs labs
     /\ (forall c l, nth_error labs c = Some l -> Forall (fun j => (offset nblk c <= j < offset nblk (S c))%nat) l)
-    /\ StronglySorted Nat.le (concat labs).
+    /\ StronglySorted Nat.le (concat labs)
+    /\ (Forall2 (fun n c => (n <= length c)%nat) nblk chrs -> forall j, (j < list_sum nblk)%nat -> In j (concat labs)).
 Proof.
   intros HL H1 Hc. apply (haplobin_spec qops (fun _ => True) q_leb_total q_leb_trans); [exact H1 | |].
   - eapply Forall_impl; [|exact Hc]. intros c [A B]. split; [exact A|]. split; [apply Forall_forall; intros; exact I | exact B].
@@ -777,122 +1071,8 @@ Proof.
     + apply IH. lia.
 Qed.
 
-(** * I. haplomat / _calc_haplomat as a whole *)
 Local Open Scope nat_scope.
-Lemma all_some_spec {A} : forall (l : list (option A)) r, all_some l = Some r -> l = map Some r.
-Proof.
-  induction l as [|x l IH]; intros r H; cbn in H.
-  - injection H as <-. reflexivity.
-  - fold (all_some l) in H. destruct x as [a|]; [|discriminate]. destruct (all_some l) as [r'|] eqn:E; [|discriminate].
-    injection H as <-. cbn. f_equal. now apply IH.
-Qed.
-Lemma starts_from_length a lens : length (starts_from a lens) = length lens.
-Proof. revert a. induction lens; intros; cbn; [reflexivity|]. now rewrite IHlens. Qed.
-Lemma stops_from_length a lens : length (stops_from a lens) = length lens.
-Proof. revert a. induction lens; intros; cbn; [reflexivity|]. now rewrite IHlens. Qed.
-
-Section HaplomatSpec.
-Context {T : Type} (O : ops T).
-
-Lemma labels_from_length : forall (chrs : list (list T)) nblk k, length nblk = length chrs ->
-  length (concat (labels_from O k nblk chrs)) = length (concat chrs).
-Proof.
-  induction chrs as [|c cs IH]; intros [|n nb] k H; cbn in H; try discriminate; [reflexivity|].
-  cbn [labels_from concat]. rewrite !app_length, chrom_labels_length, IH by lia. reflexivity.
-Qed.
-
-Lemma calc_haplomat_inv e1 e2 nhap geno gp stix spix clen u nt hm :
-  calc_haplomat O e1 e2 nhap geno gp stix spix clen u nt = Ok hm ->
-  exists nblk lab hst hsp hlen, length stix <= nhap /\ nhaploblk_chrom O nhap gp stix spix = Ok nblk
-    /\ haplobin O nblk gp stix spix = map Some lab /\ haplobin_bounds lab = Ok (hst, hsp, hlen)
-    /\ calc_bounds O nhap gp stix spix = Some (combine hst hsp)
-    /\ length (combine hst hsp) <= nhap /\ hm = hmat_of nhap nt geno u (combine hst hsp).
-Proof.
-  unfold calc_haplomat, calc_bounds. intros H.
-  destruct (Nat.ltb_spec nhap (length stix)) as [|L1]; [discriminate|].
-  destruct (nhaploblk_chrom O nhap gp stix spix) as [nblk|] eqn:E1; [|discriminate].
-  destruct (existsb _ _); [discriminate|].
-  destruct (all_some (haplobin O nblk gp stix spix)) as [lab|] eqn:E2; [|discriminate].
-  destruct (haplobin_bounds lab) as [[[hst hsp] hlen]|] eqn:E3; [|discriminate].
-  destruct (Nat.ltb_spec nhap (length (combine hst hsp))) as [|L2]; [discriminate|].
-  injection H as <-. exists nblk, lab, hst, hsp, hlen. repeat split; try assumption; try reflexivity.
-  now apply all_some_spec.
-Qed.
-
-(** Whenever the call succeeds on a genome whose chromosome groups tile the markers: the block boundaries are a
-    partition of the markers into at most nhaploblk non-empty runs; if there are exactly nhaploblk runs (the guard)
-    every entry is written and the block values of every copy add up to its additive value for every trait;
-    if there are fewer, block number (#runs) of every copy is never written. *)
-Lemma haplomat_partial (chrs : list (list T)) e1 e2 nhap geno clen u nt hm :
-  chrs <> [] -> Forall (fun c => c <> []) chrs ->
-  calc_haplomat O e1 e2 nhap geno (concat chrs) (starts_from 0 (map (@length T) chrs)) (stops_from 0 (map (@length T) chrs)) clen u nt = Ok hm ->
-  exists bounds, calc_bounds O nhap (concat chrs) (starts_from 0 (map (@length T) chrs)) (stops_from 0 (map (@length T) chrs)) = Some bounds
-    /\ hm = hmat_of nhap nt geno u bounds /\ chain 0 bounds (length (concat chrs)) /\ 1 <= length bounds <= nhap
-    /\ (length bounds = nhap -> forall g t, length g = length (concat chrs) -> length u = length (concat chrs) -> t < nt ->
-          (forall b, b < nhap -> exists q, ent (cand_of nhap nt u bounds g) b t = Some q)
-          /\ exists s, osum (map (fun b => ent (cand_of nhap nt u bounds g) b t) (seq 0 nhap)) = Some s /\ (s == dotZQ g (col 0%Q t u))%Q)
-    /\ (length bounds < nhap -> forall g t, t < nt -> ent (cand_of nhap nt u bounds g) (length bounds) t = None).
-Proof.
-  intros Hne Hc H. apply calc_haplomat_inv in H as (nblk & lab & hst & hsp & hlen & L1 & E1 & E2 & E3 & E4 & L2 & ->).
-  rewrite starts_from_length, map_length in L1.
-  assert (Lnb : length nblk = length chrs).
-  { destruct (apportion_total O nhap (concat chrs) (starts_from 0 (map (@length T) chrs)) (stops_from 0 (map (@length T) chrs))) as (nb' & E & Ln & _).
-    - now rewrite starts_from_length, stops_from_length.
-    - rewrite starts_from_length, map_length. destruct chrs; [congruence|cbn in *; lia].
-    - rewrite E1 in E. injection E as <-. now rewrite Ln, starts_from_length, map_length. }
-  assert (Llab : length lab = length (concat chrs)).
-  { rewrite haplobin_tiled in E2 by assumption. apply (f_equal (@length (option nat))) in E2.
-    rewrite map_length, labels_from_length in E2 by assumption. congruence. }
-  assert (Hlab : lab <> []) by (intros ->; cbn in E3; discriminate).
-  destruct (haplobin_bounds_partition lab Hlab) as (hst' & hsp' & hlen' & vals & E3' & Lh & Lv & Ch & _ & _ & _).
-  rewrite E3 in E3'. injection E3' as <- <- <-.
-  exists (combine hst hsp). split; [exact E4|]. split; [reflexivity|]. rewrite <- Llab. split; [exact Ch|].
-  split; [split; [|exact L2]|split].
-  - destruct (combine hst hsp); [cbn in Ch; destruct lab; [congruence | cbn in Ch; discriminate] | cbn; lia].
-  - intros Lb g t Lg Lu Ht. split.
-    + intros b Hb. now apply hmat_all_written.
-    + apply hmat_conservation; [exact Ht | exact Lb | rewrite Lg; exact Ch | congruence].
-  - intros Lb g t Ht. now apply hmat_unwritten.
-Qed.
-End HaplomatSpec.
-
-(** * J. refutations: "exactly the requested total" and "finite for every valid input" are false *)
-Definition wit_chr : list Q := [0; 1#64; 2#64; 3#64; 1]%Q.
-Definition wit_geno : list (list (list Z)) := [[[1;1;1;1;1]; [1;0;1;0;1]]; [[0;1;1;0;1]; [1;1;0;0;0]]]%Z.
-Definition wit_u : list (list Q) := [[1]; [2]; [-1]; [1#2]; [4]]%Q.
-Definition wit_chr_f : list float := [0; 0x1p-6; 0x1p-5; 0x1.8p-5; 1]%float.
-
-Lemma requested_total_refuted :
-  exists (chrs : list (list Q)) (nhap : nat),
-    Forall (fun c => c <> [] /\ StronglySorted (fun x y => Qle_bool x y = true) c) chrs
-    /\ length chrs <= nhap <= length (concat chrs)
-    /\ exists nblk bounds, nhaploblk_chrom qops nhap (concat chrs) (starts_from 0 (map (@length Q) chrs)) (stops_from 0 (map (@length Q) chrs)) = Ok nblk
-       /\ Forall2 (fun n c => n <= length c) nblk chrs
-       /\ calc_bounds qops nhap (concat chrs) (starts_from 0 (map (@length Q) chrs)) (stops_from 0 (map (@length Q) chrs)) = Some bounds
-       /\ length bounds < nhap.
-Proof.
-  exists [wit_chr], 3. split.
-  - constructor; [|constructor]. split; [discriminate|]. repeat constructor.
-  - split; [cbn; lia|]. exists [3], [(0, 4); (4, 5)]. split; [vm_compute; reflexivity|].
-    split; [repeat constructor; cbn; lia|]. split; [vm_compute; reflexivity | cbn; lia].
-Qed.
-
-(** same witness through the binary64 instance, and all the way to the optimal haploid / population values:
-    the last block of every copy is never written, so the values depend on uninitialised memory *)
-Lemma finite_refuted :
-  exists hm, calc_haplomat fops EOther EOther 3 wit_geno wit_chr_f [0] [5] [5] wit_u 1 = Ok hm
-    /\ calc_haplomat qops EOther EOther 3 wit_geno wit_chr [0] [5] [5] wit_u 1 = Ok hm
-    /\ ent (nth 0 (nth 0 hm []) []) 2 0 = None
-    /\ calc_ohvmat 2 3 1 hm (calc_xmap 2 2 true) = [[None]]
-    /\ opv_latent 3 1 hm [0; 1] = [None].
-Proof. eexists. split; [vm_compute; reflexivity|]. repeat split; vm_compute; reflexivity. Qed.
-
-Lemma opv_latent_nth (nb nt : nat) (hm : hmat_t) (x : list nat) (t : nat) :
-  nth t (opv_latent nb nt hm x) None = option_map Qopp (nth t (ohv_row (Z.of_nat (length hm)) nb nt (cands hm x)) None).
-Proof. unfold opv_latent. apply (map_nth (option_map Qopp) _ None t). Qed.
-
-
-(** * K. when every block label is carried by some marker, there are exactly as many runs as requested blocks *)
+(** * H2. sorted labels that use exactly the values 0..n-1 give exactly n runs *)
 Lemma run_vals_sorted : forall (l : list nat) prev, StronglySorted Nat.le (prev :: l) ->
   StronglySorted Nat.lt (prev :: run_vals prev l) /\ (forall x, In x (prev :: l) <-> In x (prev :: run_vals prev l)).
 Proof.
@@ -939,37 +1119,327 @@ Proof.
   specialize (IH c). lia.
 Qed.
 
-Lemma map_Some_inj {A} : forall (l1 l2 : list A), map Some l1 = map Some l2 -> l1 = l2.
-Proof. induction l1 as [|a l1 IH]; intros [|b l2] H; cbn in H; try discriminate; [reflexivity|]. injection H as -> H. f_equal. now apply IH. Qed.
 
-Section AllBins.
+(** * I. haplomat / _calc_haplomat as a whole *)
+Local Open Scope nat_scope.
+Lemma all_some_spec {A} : forall (l : list (option A)) r, all_some l = Some r -> l = map Some r.
+Proof.
+  induction l as [|x l IH]; intros r H; cbn in H.
+  - injection H as <-. reflexivity.
+  - fold (all_some l) in H. destruct x as [a|]; [|discriminate]. destruct (all_some l) as [r'|] eqn:E; [|discriminate].
+    injection H as <-. cbn. f_equal. now apply IH.
+Qed.
+Lemma all_some_map_Some {A} : forall l : list A, all_some (map Some l) = Some l.
+Proof. induction l as [|x l IH]; [reflexivity|]. cbn [map all_some fold_right]. fold (all_some (map Some l)). now rewrite IH. Qed.
+Lemma starts_from_length a lens : length (starts_from a lens) = length lens.
+Proof. revert a. induction lens; intros; cbn; [reflexivity|]. now rewrite IHlens. Qed.
+Lemma stops_from_length a lens : length (stops_from a lens) = length lens.
+Proof. revert a. induction lens; intros; cbn; [reflexivity|]. now rewrite IHlens. Qed.
+
+(** the check "no chromosome is given more blocks than it has markers" of haplomat / _calc_haplomat *)
+Lemma guard_forall2 {T} : forall (nblk : list nat) (chrs : list (list T)), length nblk = length chrs ->
+  (existsb (fun bl => snd bl <? fst bl) (combine nblk (map (@length T) chrs)) = false <-> Forall2 (fun n c => n <= length c) nblk chrs).
+Proof.
+  induction nblk as [|n nb IH]; intros [|c cs] HL; cbn in HL; try discriminate.
+  - split; [constructor | reflexivity].
+  - cbn [map combine existsb fst snd]. rewrite orb_false_iff, (IH cs) by lia. split.
+    + intros [A B]. constructor; [apply Nat.ltb_ge in A; exact A | exact B].
+    + intros H. inversion H; subst. split; [apply Nat.ltb_ge; assumption | assumption].
+Qed.
+
+Section HaplomatSpec.
+Context {T : Type} (O : ops T).
+
+Lemma labels_from_length : forall (chrs : list (list T)) nblk k, length nblk = length chrs ->
+  length (concat (labels_from O k nblk chrs)) = length (concat chrs).
+Proof.
+  induction chrs as [|c cs IH]; intros [|n nb] k H; cbn in H; try discriminate; [reflexivity|].
+  cbn [labels_from concat]. rewrite !app_length, chrom_fix_length, IH by lia. reflexivity.
+Qed.
+
+(** "Uses exactly the requested total" at full strength, for any number type: on chromosome groups that tile the markers,
+    with between 1 and #markers blocks per chromosome, whenever every marker is labelled the labels are non-decreasing,
+    they are exactly 0..nhap-1, and haplobin_bounds yields exactly nhap runs. *)
+Lemma requested_total (chrs : list (list T)) (nblk : list nat) (nhap : nat) (lab : list nat) :
+  chrs <> [] -> Forall (fun c => c <> []) chrs -> Forall (fun n => 1 <= n) nblk ->
+  Forall2 (fun n c => n <= length c) nblk chrs -> list_sum nblk = nhap ->
+  haplobin O nblk (concat chrs) (starts_from 0 (map (@length T) chrs)) (stops_from 0 (map (@length T) chrs)) = map Some lab ->
+  StronglySorted Nat.le lab /\ (forall j, In j lab <-> j < nhap)
+  /\ exists hst hsp hlen, haplobin_bounds lab = Ok (hst, hsp, hlen) /\ length (combine hst hsp) = nhap.
+Proof.
+  intros Hne Hc H1 Hlen Hsum E.
+  destruct (haplobin_any_spec O chrs nblk lab (Forall2_len _ _ _ Hlen) Hc H1 E) as (labs & -> & L & R & SS & Fu).
+  assert (Hiff : forall j, In j (concat labs) <-> j < nhap).
+  { intros j. split; [|intros Hj; apply (Fu Hlen); lia].
+    intros Hj. apply in_concat in Hj as (l & Hl & Hj). apply In_nth_error in Hl as (c & Hc').
+    specialize (R c l Hc'). rewrite Forall_forall in R. specialize (R j Hj). pose proof (offset_le_sum nblk (S c)). lia. }
+  split; [exact SS|]. split; [exact Hiff|].
+  apply runs_eq_requested; [| exact SS | exact Hiff].
+  intros Hnil. destruct chrs as [|c cs]; [congruence|]. inversion L as [|? l ? ls Lc _]; subst.
+  apply Forall_cons_iff in Hc as [Hcne _]. cbn in Hnil. apply app_eq_nil in Hnil as [-> _]. destruct c; [congruence|discriminate].
+Qed.
+
+Lemma calc_haplomat_inv e1 e2 nhap geno gp stix spix clen u nt hm :
+  calc_haplomat O e1 e2 nhap geno gp stix spix clen u nt = Ok hm ->
+  exists nblk lab hst hsp hlen, length stix <= nhap /\ nhaploblk_chrom O nhap gp stix spix = Ok nblk
+    /\ existsb (fun bl => snd bl <? fst bl) (combine nblk clen) = false
+    /\ haplobin O nblk gp stix spix = map Some lab /\ haplobin_bounds lab = Ok (hst, hsp, hlen)
+    /\ calc_bounds O nhap gp stix spix = Some (combine hst hsp)
+    /\ length (combine hst hsp) <= nhap /\ hm = hmat_of nhap nt geno u (combine hst hsp).
+Proof.
+  unfold calc_haplomat, calc_bounds. intros H.
+  destruct (Nat.ltb_spec nhap (length stix)) as [|L1]; [discriminate|].
+  destruct (nhaploblk_chrom O nhap gp stix spix) as [nblk|] eqn:E1; [|discriminate].
+  destruct (existsb _ _) eqn:EG; [discriminate|].
+  destruct (all_some (haplobin O nblk gp stix spix)) as [lab|] eqn:E2; [|discriminate].
+  destruct (haplobin_bounds lab) as [[[hst hsp] hlen]|] eqn:E3; [|discriminate].
+  destruct (Nat.ltb_spec nhap (length (combine hst hsp))) as [|L2]; [discriminate|].
+  injection H as <-. exists nblk, lab, hst, hsp, hlen. repeat split; try assumption; try reflexivity.
+  now apply all_some_spec.
+Qed.
+
+(** haplomat / _calc_haplomat at FULL strength, for any number type: whenever the call succeeds on a genome whose
+    chromosome groups tile the markers (chrgrp_len = the group lengths), the block boundaries partition the markers into
+    EXACTLY nhaploblk non-empty runs, every entry of the (m,n,b,t) array is written, and for every copy and trait the
+    block values add up to the copy's additive value. *)
+Lemma haplomat_full (chrs : list (list T)) e1 e2 nhap geno u nt hm :
+  chrs <> [] -> Forall (fun c => c <> []) chrs ->
+  calc_haplomat O e1 e2 nhap geno (concat chrs) (starts_from 0 (map (@length T) chrs)) (stops_from 0 (map (@length T) chrs))
+                (map (@length T) chrs) u nt = Ok hm ->
+  exists bounds, calc_bounds O nhap (concat chrs) (starts_from 0 (map (@length T) chrs)) (stops_from 0 (map (@length T) chrs)) = Some bounds
+    /\ hm = hmat_of nhap nt geno u bounds /\ chain 0 bounds (length (concat chrs)) /\ length bounds = nhap
+    /\ forall g t, length g = length (concat chrs) -> length u = length (concat chrs) -> t < nt ->
+          (forall b, b < nhap -> exists q, ent (cand_of nhap nt u bounds g) b t = Some q)
+          /\ exists s, osum (map (fun b => ent (cand_of nhap nt u bounds g) b t) (seq 0 nhap)) = Some s /\ (s == dotZQ g (col 0%Q t u))%Q.
+Proof.
+  intros Hne Hc H. apply calc_haplomat_inv in H as (nblk & lab & hst & hsp & hlen & L1 & E1 & EG & E2 & E3 & E4 & L2 & ->).
+  rewrite starts_from_length, map_length in L1.
+  destruct (apportion_total O nhap (concat chrs) (starts_from 0 (map (@length T) chrs)) (stops_from 0 (map (@length T) chrs))) as (nb' & E & Ln & Hge & Hsum).
+  { now rewrite starts_from_length, stops_from_length. }
+  { rewrite starts_from_length, map_length. destruct chrs; [congruence|cbn in *; lia]. }
+  rewrite E1 in E. injection E as <-. rewrite starts_from_length, map_length in Ln.
+  apply (guard_forall2 nblk chrs Ln) in EG.
+  destruct (requested_total chrs nblk nhap lab Hne Hc Hge EG Hsum E2) as (_ & _ & hst' & hsp' & hlen' & E3' & Lb).
+  rewrite E3 in E3'. injection E3' as <- <- <-.
+  assert (Llab : length lab = length (concat chrs)).
+  { rewrite haplobin_tiled in E2 by assumption. apply (f_equal (@length (option nat))) in E2.
+    rewrite map_length, labels_from_length in E2 by assumption. congruence. }
+  assert (Hlab : lab <> []) by (intros ->; cbn in E3; discriminate).
+  destruct (haplobin_bounds_partition lab Hlab) as (hst' & hsp' & hlen' & vals & E3' & Lh & Lv & Ch & _ & _ & _).
+  rewrite E3 in E3'. injection E3' as <- <- <-.
+  exists (combine hst hsp). split; [exact E4|]. split; [reflexivity|]. rewrite <- Llab. split; [exact Ch|]. split; [exact Lb|].
+  intros g t Lg Lu Ht. split.
+  - intros b Hb. now apply hmat_all_written.
+  - apply hmat_conservation; [exact Ht | exact Lb | rewrite Lg; exact Ch | congruence].
+Qed.
+End HaplomatSpec.
+
+(** the call does succeed on every valid input: sorted non-empty chromosomes, at least as many blocks as chromosomes, no
+    chromosome given more blocks than it has markers (any total preorder on proper numbers, proper boundaries) *)
+Section HaplomatSucceeds.
 Context {T : Type} (O : ops T) (ok : T -> Prop).
 Hypothesis leb_total : forall x y, ok x -> ok y -> o_leb O x y = true \/ o_leb O y x = true.
 Hypothesis leb_trans : forall x y z, ok x -> ok y -> ok z -> o_leb O x y = true -> o_leb O y z = true -> o_leb O x z = true.
 
-(** valid sorted layout, counts adding up to the requested total, and every label 0..nhap-1 carried by a marker
-    (every equal-width bin keeps a marker): exactly nhap runs *)
-Lemma all_bins_nonempty_runs (chrs : list (list T)) (nblk : list nat) (nhap : nat) (lab : list nat) :
-  chrs <> [] -> Forall (fun n => 1 <= n) nblk -> Forall (chrom_ok O ok) chrs -> Forall2 (bounds_ok O ok) nblk chrs ->
-  list_sum nblk = nhap ->
-  haplobin O nblk (concat chrs) (starts_from 0 (map (@length T) chrs)) (stops_from 0 (map (@length T) chrs)) = map Some lab ->
-  (forall j, j < nhap -> In j lab) ->
-  StronglySorted Nat.le lab /\ (forall j, In j lab -> j < nhap)
-  /\ exists hst hsp hlen, haplobin_bounds lab = Ok (hst, hsp, hlen) /\ length (combine hst hsp) = nhap.
+Lemma haplomat_succeeds (chrs : list (list T)) (nblk : list nat) e1 e2 nhap geno u nt :
+  chrs <> [] -> Forall (chrom_ok O ok) chrs -> length chrs <= nhap ->
+  nhaploblk_chrom O nhap (concat chrs) (starts_from 0 (map (@length T) chrs)) (stops_from 0 (map (@length T) chrs)) = Ok nblk ->
+  Forall2 (bounds_ok O ok) nblk chrs -> Forall2 (fun n c => n <= length c) nblk chrs ->
+  exists hm, calc_haplomat O e1 e2 nhap geno (concat chrs) (starts_from 0 (map (@length T) chrs)) (stops_from 0 (map (@length T) chrs))
+                           (map (@length T) chrs) u nt = Ok hm.
 Proof.
-  intros Hne H1 Hc Hb Hsum E Hall.
-  destruct (haplobin_spec O ok leb_total leb_trans chrs nblk H1 Hc Hb) as (labs & E' & L & R & SS).
-  rewrite E in E'. apply map_Some_inj in E'. subst lab.
-  assert (Hlt : forall j, In j (concat labs) -> j < nhap).
-  { intros j Hj. apply in_concat in Hj as (l & Hl & Hj). apply In_nth_error in Hl as (c & Hc').
-    specialize (R c l Hc'). rewrite Forall_forall in R. specialize (R j Hj). pose proof (offset_le_sum nblk (S c)). lia. }
-  split; [exact SS|]. split; [exact Hlt|].
-  apply runs_eq_requested; [| exact SS | intros j; split; [apply Hlt | apply Hall]].
-  intros Hnil. destruct chrs as [|c cs]; [congruence|]. inversion L as [|? l ? ls Lc _]; subst.
-  inversion Hc as [|? ? (Hcne & _) _]; subst. cbn in Hnil. apply app_eq_nil in Hnil as [-> _]. destruct c; [congruence|discriminate].
+  intros Hne Hc Hn E1 Hb Hlen. unfold calc_haplomat. rewrite starts_from_length, map_length.
+  destruct (Nat.ltb_spec nhap (length chrs)) as [|_]; [lia|]. rewrite E1.
+  destruct (apportion_total O nhap (concat chrs) (starts_from 0 (map (@length T) chrs)) (stops_from 0 (map (@length T) chrs))) as (nb' & E & Ln & Hge & Hsum).
+  { now rewrite starts_from_length, stops_from_length. }
+  { rewrite starts_from_length, map_length. destruct chrs; [congruence|cbn in *; lia]. }
+  rewrite E1 in E. injection E as <-.
+  rewrite (proj2 (guard_forall2 nblk chrs (Forall2_len _ _ _ Hlen)) Hlen).
+  destruct (haplobin_spec O ok leb_total leb_trans chrs nblk Hge Hc Hb) as (labs & E2 & _).
+  rewrite E2, all_some_map_Some.
+  assert (Hc' : Forall (fun c => c <> []) chrs) by (eapply Forall_impl; [|exact Hc]; intros c (H & _); exact H).
+  destruct (requested_total O chrs nblk nhap (concat labs) Hne Hc' Hge Hlen Hsum E2) as (_ & _ & hst & hsp & hlen & E3 & Lb).
+  rewrite E3. rewrite Lb, Nat.ltb_irrefl. eexists. reflexivity.
 Qed.
-End AllBins.
+End HaplomatSucceeds.
 
+(** the exact-rational instance: unconditional *)
+Lemma q_bounds_all : forall (nblk : list nat) (chrs : list (list Q)), Forall (fun n => 1 <= n) nblk -> length nblk = length chrs ->
+  Forall2 (bounds_ok qops (fun _ => True)) nblk chrs.
+Proof.
+  intros nblk chrs H1. revert chrs. induction H1 as [|n nb Hn _ IH]; intros [|c cs] HL; cbn in HL; try discriminate; constructor.
+  - now apply q_bounds_ok.
+  - apply IH. lia.
+Qed.
+Lemma q_chrom_ok (chrs : list (list Q)) : Forall (fun c => c <> [] /\ StronglySorted (fun x y => Qle_bool x y = true) c) chrs ->
+  Forall (chrom_ok qops (fun _ => True)) chrs.
+Proof. intros Hc. eapply Forall_impl; [|exact Hc]. intros c [A B]. split; [exact A|]. split; [apply Forall_forall; intros; exact I | exact B]. Qed.
+
+Lemma q_haplomat_succeeds (chrs : list (list Q)) (nblk : list nat) e1 e2 nhap geno u nt :
+  chrs <> [] -> Forall (fun c => c <> [] /\ StronglySorted (fun x y => Qle_bool x y = true) c) chrs -> length chrs <= nhap ->
+  nhaploblk_chrom qops nhap (concat chrs) (starts_from 0 (map (@length Q) chrs)) (stops_from 0 (map (@length Q) chrs)) = Ok nblk ->
+  Forall2 (fun n c => n <= length c) nblk chrs ->
+  exists hm, calc_haplomat qops e1 e2 nhap geno (concat chrs) (starts_from 0 (map (@length Q) chrs)) (stops_from 0 (map (@length Q) chrs))
+                           (map (@length Q) chrs) u nt = Ok hm.
+Proof.
+  intros Hne Hc Hn E1 Hlen.
+  destruct (apportion_total qops nhap (concat chrs) (starts_from 0 (map (@length Q) chrs)) (stops_from 0 (map (@length Q) chrs))) as (nb' & E & Ln & Hge & _).
+  { now rewrite starts_from_length, stops_from_length. }
+  { rewrite starts_from_length, map_length. destruct chrs; [congruence|cbn in *; lia]. }
+  rewrite E1 in E. injection E as <-.
+  apply (haplomat_succeeds qops (fun _ => True) q_leb_total q_leb_trans chrs nblk); try assumption.
+  - now apply q_chrom_ok.
+  - apply q_bounds_all; [exact Hge | now apply Forall2_len in Hlen].
+Qed.
+
+(** * J. regression witness: the FORMER code (no repair pass; [old_haplobin], section C) violated "exactly the requested
+      total" and "finite for every valid input"; the repaired code handles the same input *)
+Section OldCode.
+Context {T : Type} (O : ops T).
+Definition old_calc_bounds (nhap : nat) (gp : list T) (stix spix : list nat) : option (list (nat * nat)) :=
+  match nhaploblk_chrom O nhap gp stix spix with
+  | Err _ => None
+  | Ok nblk => match all_some (old_haplobin O nblk gp stix spix) with
+               | None => None
+               | Some lab => match haplobin_bounds lab with Err _ => None | Ok (hst, hsp, _) => Some (combine hst hsp) end
+               end
+  end.
+Definition old_calc_haplomat (e1 e2 : err) (nhap : nat) (geno : list (list (list Z))) (gp : list T)
+    (stix spix clen : list nat) (u : list (list Q)) (nt : nat) : res hmat_t :=
+  if (nhap <? length stix)%nat then Err e1 else
+  match nhaploblk_chrom O nhap gp stix spix with
+  | Err e => Err e
+  | Ok nblk =>
+    if existsb (fun bl => (snd bl <? fst bl)%nat) (combine nblk clen) then Err e2 else
+    match all_some (old_haplobin O nblk gp stix spix) with
+    | None => Err EOther
+    | Some lab =>
+      match haplobin_bounds lab with
+      | Err e => Err e
+      | Ok (hst, hsp, _) =>
+        let bounds := combine hst hsp in
+        if (nhap <? length bounds)%nat then Err EIndex else Ok (hmat_of nhap nt geno u bounds)
+      end
+    end
+  end.
+End OldCode.
+
+Definition wit_chr : list Q := [0; 1#64; 2#64; 3#64; 1]%Q.
+Definition wit_geno : list (list (list Z)) := [[[1;1;1;1;1]; [1;0;1;0;1]]; [[0;1;1;0;1]; [1;1;0;0;0]]]%Z.
+Definition wit_u : list (list Q) := [[1]; [2]; [-1]; [1#2]; [4]]%Q.
+Definition wit_chr_f : list float := [0; 0x1p-6; 0x1p-5; 0x1.8p-5; 1]%float.
+
+(** former code: positions 0, 1/64, 2/64, 3/64, 1 with 3 blocks: the middle equal-width bin is empty, 2 runs *)
+Lemma old_requested_total_refuted :
+  exists (chrs : list (list Q)) (nhap : nat),
+    Forall (fun c => c <> [] /\ StronglySorted (fun x y => Qle_bool x y = true) c) chrs
+    /\ length chrs <= nhap <= length (concat chrs)
+    /\ exists nblk bounds, nhaploblk_chrom qops nhap (concat chrs) (starts_from 0 (map (@length Q) chrs)) (stops_from 0 (map (@length Q) chrs)) = Ok nblk
+       /\ Forall2 (fun n c => n <= length c) nblk chrs
+       /\ old_calc_bounds qops nhap (concat chrs) (starts_from 0 (map (@length Q) chrs)) (stops_from 0 (map (@length Q) chrs)) = Some bounds
+       /\ length bounds < nhap.
+Proof.
+  exists [wit_chr], 3. split.
+  - constructor; [|constructor]. split; [discriminate|]. repeat constructor.
+  - split; [cbn; lia|]. exists [3], [(0, 4); (4, 5)]. split; [vm_compute; reflexivity|].
+    split; [repeat constructor; cbn; lia|]. split; [vm_compute; reflexivity | cbn; lia].
+Qed.
+
+(** former code, same witness through the binary64 instance and all the way to the optimal haploid / population values:
+    the last block of every copy was never written, so the values depended on uninitialised memory *)
+Lemma old_finite_refuted :
+  exists hm, old_calc_haplomat fops EOther EOther 3 wit_geno wit_chr_f [0] [5] [5] wit_u 1 = Ok hm
+    /\ old_calc_haplomat qops EOther EOther 3 wit_geno wit_chr [0] [5] [5] wit_u 1 = Ok hm
+    /\ ent (nth 0 (nth 0 hm []) []) 2 0 = None
+    /\ calc_ohvmat 2 3 1 hm (calc_xmap 2 2 true) = [[None]]
+    /\ opv_latent 3 1 hm [0; 1] = [None].
+Proof. eexists. split; [vm_compute; reflexivity|]. repeat split; vm_compute; reflexivity. Qed.
+
+(** repaired code on the same witness (binary64 and rational instances agree): three runs, the marker at 3/64 becomes
+    the middle block, every entry written, finite optimal haploid / population values *)
+Lemma witness_repaired :
+  calc_bounds qops 3 wit_chr [0] [5] = Some [(0, 3); (3, 4); (4, 5)]
+  /\ exists hm, calc_haplomat fops EOther EOther 3 wit_geno wit_chr_f [0] [5] [5] wit_u 1 = Ok hm
+    /\ calc_haplomat qops EOther EOther 3 wit_geno wit_chr [0] [5] [5] wit_u 1 = Ok hm
+    /\ nth 0 (nth 0 hm []) [] = [[Some 2]; [Some (1#2)]; [Some 4]]%Q
+    /\ (exists v, calc_ohvmat 2 3 1 hm (calc_xmap 2 2 true) = [[Some v]] /\ (v == 15)%Q)
+    /\ exists w, opv_latent 3 1 hm [0; 1] = [Some w] /\ (w == -15)%Q.
+Proof.
+  split; [vm_compute; reflexivity|]. eexists. split; [vm_compute; reflexivity|]. split; [vm_compute; reflexivity|].
+  split; [vm_compute; reflexivity|]. split; eexists; (split; [vm_compute; reflexivity | vm_compute; reflexivity]).
+Qed.
+
+Lemma opv_latent_nth (nb nt : nat) (hm : hmat_t) (x : list nat) (t : nat) :
+  nth t (opv_latent nb nt hm x) None = option_map Qopp (nth t (ohv_row (Z.of_nat (length hm)) nb nt (cands hm x)) None).
+Proof. unfold opv_latent. apply (map_nth (option_map Qopp) _ None t). Qed.
+
+
+(** * K. the repair pass changes nothing where the former code was right: under the ordering hypotheses, if every
+      equal-width bin holds a marker (every label 0..nhap-1 occurs among the former labels), haplobin returns exactly
+      the equal-width bin labels *)
+Section EqualWidthKept.
+Context {T : Type} (O : ops T) (ok : T -> Prop).
+Hypothesis leb_total : forall x y, ok x -> ok y -> o_leb O x y = true \/ o_leb O y x = true.
+Hypothesis leb_trans : forall x y z, ok x -> ok y -> ok z -> o_leb O x y = true -> o_leb O y z = true -> o_leb O x z = true.
+
+Lemma old_labels_from_spec : forall (chrs : list (list T)) (nblk : list nat) (k : nat),
+  Forall (fun n => 1 <= n) nblk -> Forall (chrom_ok O ok) chrs -> Forall2 (bounds_ok O ok) nblk chrs ->
+  exists labs : list (list nat), old_labels_from O k nblk chrs = map (map Some) labs /\ ranges k nblk labs.
+Proof.
+  induction chrs as [|c cs IH]; intros nblk k H1 Hc Hb.
+  - inversion Hb; subst. exists []. split; [reflexivity | exact I].
+  - inversion Hb as [|n c' nb cs' Hbc Hb']; subst. apply Forall_cons_iff in H1 as [Hn H1]. apply Forall_cons_iff in Hc as [Hc0 Hc].
+    destruct (chrom_labels_spec O ok leb_total leb_trans k n c Hn Hc0 Hbc) as (l & El & _ & Rl & _).
+    destruct (IH nb (k + n) H1 Hc Hb') as (ls & Els & Rls).
+    exists (l :: ls). cbn [old_labels_from map ranges]. rewrite El, Els. repeat split; assumption.
+Qed.
+
+Lemma labels_from_eq_old : forall (chrs : list (list T)) (nblk : list nat) (k : nat),
+  Forall (fun n => 1 <= n) nblk -> Forall (chrom_ok O ok) chrs -> Forall2 (bounds_ok O ok) nblk chrs ->
+  (forall j, k <= j < k + list_sum nblk -> In (Some j) (concat (old_labels_from O k nblk chrs))) ->
+  labels_from O k nblk chrs = old_labels_from O k nblk chrs.
+Proof.
+  induction chrs as [|c cs IH]; intros nblk k H1 Hc Hb Hall.
+  - inversion Hb; subst. reflexivity.
+  - inversion Hb as [|n c' nb cs' Hbc Hb']; subst. apply Forall_cons_iff in H1 as [Hn H1]. apply Forall_cons_iff in Hc as [Hc0 Hc].
+    destruct (chrom_labels_spec O ok leb_total leb_trans k n c Hn Hc0 Hbc) as (l & El & Ll & Rl & Sl).
+    destruct (old_labels_from_spec cs nb (k + n) H1 Hc Hb') as (ls & Els & Rls).
+    pose proof (ranges_lower _ _ _ Rls) as Lo. rewrite Forall_forall in Lo. rewrite Forall_forall in Rl.
+    cbn [labels_from old_labels_from concat] in *. change (list_sum (n :: nb)) with (n + list_sum nb) in Hall. f_equal.
+    + unfold chrom_fix. rewrite El, <- Ll. apply spread_id; [exact Hn | now apply Forall_forall | exact Sl |].
+      intros j Hj. specialize (Hall j ltac:(lia)). rewrite El, Els, <- concat_map, <- map_app in Hall.
+      apply in_map_iff in Hall as (j' & Ej & Hin). injection Ej as ->. apply in_app_or in Hin as [Hin|Hin]; [exact Hin|].
+      specialize (Lo j Hin). cbn in Lo. lia.
+    + apply IH; [exact H1 | exact Hc | exact Hb' |]. intros j Hj. specialize (Hall j ltac:(lia)).
+      apply in_app_or in Hall as [Hin|Hin]; [|exact Hin]. rewrite El in Hin. apply in_map_iff in Hin as (j' & Ej & Hin).
+      injection Ej as ->. specialize (Rl j Hin). lia.
+Qed.
+
+Lemma equal_width_kept (chrs : list (list T)) (nblk : list nat) :
+  Forall (fun n => 1 <= n) nblk -> Forall (chrom_ok O ok) chrs -> Forall2 (bounds_ok O ok) nblk chrs ->
+  (forall j, j < list_sum nblk ->
+     In (Some j) (old_haplobin O nblk (concat chrs) (starts_from 0 (map (@length T) chrs)) (stops_from 0 (map (@length T) chrs)))) ->
+  haplobin O nblk (concat chrs) (starts_from 0 (map (@length T) chrs)) (stops_from 0 (map (@length T) chrs))
+  = old_haplobin O nblk (concat chrs) (starts_from 0 (map (@length T) chrs)) (stops_from 0 (map (@length T) chrs)).
+Proof.
+  intros H1 Hc Hb Hall.
+  assert (HL : length nblk = length chrs) by now apply Forall2_len in Hb.
+  assert (Hc' : Forall (fun c => c <> []) chrs) by (eapply Forall_impl; [|exact Hc]; intros c (H & _); exact H).
+  rewrite old_haplobin_tiled in * by assumption. rewrite haplobin_tiled by assumption. f_equal.
+  apply labels_from_eq_old; try assumption. intros j Hj. apply Hall. lia.
+Qed.
+End EqualWidthKept.
+
+Lemma q_equal_width_kept (chrs : list (list Q)) (nblk : list nat) :
+  length nblk = length chrs -> Forall (fun n => 1 <= n) nblk ->
+  Forall (fun c => c <> [] /\ StronglySorted (fun x y => Qle_bool x y = true) c) chrs ->
+  (forall j, j < list_sum nblk ->
+     In (Some j) (old_haplobin qops nblk (concat chrs) (starts_from 0 (map (@length Q) chrs)) (stops_from 0 (map (@length Q) chrs)))) ->
+  haplobin qops nblk (concat chrs) (starts_from 0 (map (@length Q) chrs)) (stops_from 0 (map (@length Q) chrs))
+  = old_haplobin qops nblk (concat chrs) (starts_from 0 (map (@length Q) chrs)) (stops_from 0 (map (@length Q) chrs)).
+Proof.
+  intros HL H1 Hc. apply (equal_width_kept qops (fun _ => True) q_leb_total q_leb_trans); [exact H1 | now apply q_chrom_ok | now apply q_bounds_all].
+Qed.
 
 (** * L. cross maps designate valid parents; the OHV problem as a whole *)
 Lemma xmap_from_valid (uniq : bool) : forall k st n,
@@ -1004,26 +1474,28 @@ Proof.
     rewrite Forall_forall in F. apply F. apply nth_In. rewrite Forall_forall in Hp. rewrite L. now apply Hp.
 Qed.
 
-(** the OHV problem built by from_pgmat_gpmod, under the guard "as many runs as requested blocks": every entry of
-    ohvmat is defined and bounds every block-boundary recombinant of the cross's parents *)
-Lemma ohv_problem_partial {T : Type} (O : ops T) (chrs : list (list T)) e1 e2 nhap (geno : list (list (list Z))) clen u nt hm
-    (ntaxa nparent : nat) (uniq : bool) (bounds : list (nat * nat)) :
+(** the OHV problem built by from_pgmat_gpmod at FULL strength (any number type): whenever the haplotype matrix is
+    built, there are exactly nhaploblk blocks, and for every cross of the map and every trait the entry of ohvmat is
+    defined (finite) and bounds every block-boundary recombinant of the cross's parents *)
+Lemma ohv_problem {T : Type} (O : ops T) (chrs : list (list T)) e1 e2 nhap (geno : list (list (list Z))) u nt hm
+    (ntaxa nparent : nat) (uniq : bool) :
   chrs <> [] -> Forall (fun c => c <> []) chrs ->
-  calc_haplomat O e1 e2 nhap geno (concat chrs) (starts_from 0 (map (@length T) chrs)) (stops_from 0 (map (@length T) chrs)) clen u nt = Ok hm ->
-  calc_bounds O nhap (concat chrs) (starts_from 0 (map (@length T) chrs)) (stops_from 0 (map (@length T) chrs)) = Some bounds ->
-  length bounds = nhap ->
+  calc_haplomat O e1 e2 nhap geno (concat chrs) (starts_from 0 (map (@length T) chrs)) (stops_from 0 (map (@length T) chrs))
+                (map (@length T) chrs) u nt = Ok hm ->
   geno <> [] -> Forall (fun phm => length phm = ntaxa /\ Forall (fun g => length g = length (concat chrs)) phm) geno ->
   length u = length (concat chrs) -> 1 <= nparent ->
-  forall s xc t, nth_error (calc_xmap ntaxa nparent uniq) s = Some xc -> t < nt ->
+  exists bounds, calc_bounds O nhap (concat chrs) (starts_from 0 (map (@length T) chrs)) (stops_from 0 (map (@length T) chrs)) = Some bounds
+    /\ length bounds = nhap /\ chain 0 bounds (length (concat chrs))
+    /\ forall s xc t, nth_error (calc_xmap ntaxa nparent uniq) s = Some xc -> t < nt ->
   exists V, nth_error (calc_ohvmat (Z.of_nat (length geno)) nhap nt hm (calc_xmap ntaxa nparent uniq)) s
               = Some (ohv_row (Z.of_nat (length geno)) nhap nt (cands hm xc))
     /\ nth t (ohv_row (Z.of_nat (length geno)) nhap nt (cands hm xc)) None = Some V
     /\ forall src : nat -> list Z, (forall b, b < nhap -> In (src b) (copies geno xc)) ->
          (inject_Z (Z.of_nat (length geno)) * dotZQ (recomb src 0 bounds) (col 0%Q t u) <= V)%Q.
 Proof.
-  intros Hne Hc Hcalc Hb Lb Hg Hshape Lu Hnp s xc t Hxc Ht.
-  destruct (haplomat_partial O chrs e1 e2 nhap geno clen u nt hm Hne Hc Hcalc) as (bounds' & Hb' & -> & Ch & _ & _ & _).
-  rewrite Hb in Hb'. injection Hb' as <-.
+  intros Hne Hc Hcalc Hg Hshape Lu Hnp.
+  destruct (haplomat_full O chrs e1 e2 nhap geno u nt hm Hne Hc Hcalc) as (bounds & Hb & -> & Ch & Lb & _).
+  exists bounds. split; [exact Hb|]. split; [exact Lb|]. split; [exact Ch|]. intros s xc t Hxc Ht.
   pose proof (calc_xmap_valid ntaxa nparent uniq) as Hv. rewrite Forall_forall in Hv.
   destruct (Hv xc (nth_error_In _ _ Hxc)) as [Lxc Fxc].
   destruct (copies_rows geno xc ntaxa (length (concat chrs)) Hshape Fxc) as [Hpar Hrows].
